@@ -5,6 +5,7 @@ package main
 import (
 	"encoding/json"
 	"fmt"
+	"github.com/NethermindEth/juno/blockchain"
 	"math/big"
 	"sort"
 	"strings"
@@ -16,6 +17,7 @@ import (
 	"github.com/NethermindEth/juno/core/trie"
 	"github.com/NethermindEth/juno/jsonrpc"
 	rpcv10 "github.com/NethermindEth/juno/rpc/v10"
+	rpcv8 "github.com/NethermindEth/juno/rpc/v8"
 	rpcv9 "github.com/NethermindEth/juno/rpc/v9"
 	"github.com/NethermindEth/juno/utils/log"
 	"verif/harness/lib"
@@ -193,15 +195,73 @@ type asSets struct {
 	storage            []*trie.ProofNodeSet
 }
 
+// rpcHandlers: the three copies of the handler (rpc/v8, v9, v10) over one node.
+type rpcHandlers struct {
+	h8  *rpcv8.Handler
+	h9  *rpcv9.Handler
+	h10 *rpcv10.Handler
+}
+
+func newRPCHandlers(dst *blockchain.Blockchain) *rpcHandlers {
+	return &rpcHandlers{
+		h8:  rpcv8.New(dst, nil, nil, log.NewNopZapLogger()),
+		h9:  rpcv9.New(dst, nil, nil, log.NewNopZapLogger()),
+		h10: rpcv10.New(dst, nil, nil, log.NewNopZapLogger()),
+	}
+}
+
+var rpcVersions = []string{"v8", "v9", "v10"}
+
 // callStorageProof invokes the real handler and returns the JSON a client would receive.
-func callStorageProof(version string, h9 *rpcv9.Handler, h10 *rpcv10.Handler, ref blockRef, classes, contracts []felt.Felt,
+func callStorageProof(version string, hs *rpcHandlers, ref blockRef, classes, contracts []felt.Felt,
 	storage []rpcStorageKeysJSON,
 ) ([]byte, *asSets, *jsonrpc.Error, error) {
 	var res any
 	var rpcErr *jsonrpc.Error
 	sets := &asSets{classes: trie.NewProofNodeSet(), contracts: trie.NewProofNodeSet()}
 	err, _, _ := lib.Try(func() error {
-		if version == "v9" {
+		if version == "v8" {
+			var id rpcv8.BlockID // v8 has no constructor for `latest`
+			if e := id.UnmarshalJSON([]byte(`"latest"`)); e != nil {
+				return e
+			}
+			switch ref.Kind {
+			case "number":
+				id = rpcv8.BlockIDFromNumber(ref.Number)
+			case "hash":
+				hh := hexFelt(ref.Hash)
+				id = rpcv8.BlockIDFromHash(&hh)
+			case "pre_confirmed", "l1_accepted": // v8 has `pending` only
+				id = rpcv8.BlockIDPending()
+			}
+			sk := make([]rpcv8.StorageKeys, len(storage))
+			for i, s := range storage {
+				if s.Contract != "" {
+					c := hexFelt(strings.TrimPrefix(s.Contract, "0x"))
+					sk[i] = rpcv8.StorageKeys{Contract: &c}
+				}
+				for _, k := range s.Keys {
+					sk[i].Keys = append(sk[i].Keys, hexFelt(strings.TrimPrefix(k, "0x")))
+				}
+			}
+			r8, e := hs.h8.StorageProof(&id, classes, contracts, sk)
+			res, rpcErr = r8, e
+			if e == nil && r8 != nil {
+				for _, n := range r8.ClassesProof {
+					sets.classes.Put(*n.Hash, n.Node.AsProofNode())
+				}
+				for _, n := range r8.ContractsProof.Nodes {
+					sets.contracts.Put(*n.Hash, n.Node.AsProofNode())
+				}
+				for _, m := range r8.ContractsStorageProofs {
+					ps := trie.NewProofNodeSet()
+					for _, n := range m {
+						ps.Put(*n.Hash, n.Node.AsProofNode())
+					}
+					sets.storage = append(sets.storage, ps)
+				}
+			}
+		} else if version == "v9" {
 			id := rpcv9.BlockIDLatest()
 			switch ref.Kind {
 			case "number":
@@ -224,7 +284,7 @@ func callStorageProof(version string, h9 *rpcv9.Handler, h10 *rpcv10.Handler, re
 					sk[i].Keys = append(sk[i].Keys, hexFelt(strings.TrimPrefix(k, "0x")))
 				}
 			}
-			r9, e := h9.StorageProof(&id, classes, contracts, sk)
+			r9, e := hs.h9.StorageProof(&id, classes, contracts, sk)
 			res, rpcErr = r9, e
 			if e == nil && r9 != nil {
 				for _, n := range r9.ClassesProof {
@@ -264,7 +324,7 @@ func callStorageProof(version string, h9 *rpcv9.Handler, h10 *rpcv10.Handler, re
 					sk[i].Keys = append(sk[i].Keys, hexFelt(strings.TrimPrefix(k, "0x")))
 				}
 			}
-			r10, e := h10.StorageProof(&id, classes, contracts, sk)
+			r10, e := hs.h10.StorageProof(&id, classes, contracts, sk)
 			res, rpcErr = r10, e
 			if e == nil && r10 != nil {
 				for _, n := range r10.ClassesProof {
@@ -330,8 +390,7 @@ func (c *ctx) runRPCChain(ch rpcChain, out chan<- batch) {
 	opt.NoClasses = ch.NoClasses
 	g := lib.NewChainGen(gr, ch.SrcNew, opt)
 	dst, _ := lib.NewNode(g.Net, ch.DstNew)
-	h9 := rpcv9.New(dst, nil, nil, log.NewNopZapLogger())
-	h10 := rpcv10.New(dst, nil, nil, log.NewNopZapLogger())
+	hs := newRPCHandlers(dst)
 	blocks := ch.Blocks
 	for bi := 0; bi < blocks; bi++ {
 		// the first third of the chain predates 0.14.0
@@ -359,16 +418,16 @@ func (c *ctx) runRPCChain(ch rpcChain, out chan<- batch) {
 		if bi != 0 && bi != blocks-1 && bi != blocks/3 && !gr.Chance(1, 2) {
 			continue
 		}
-		for _, version := range []string{"v9", "v10"} {
+		for _, version := range rpcVersions {
 			for q := 0; q < 2; q++ {
-				c.rpcQuery(gr, g, version, ch, h9, h10, out)
+				c.rpcQuery(gr, g, version, ch, hs, out)
 			}
 		}
 	}
 }
 
 func (c *ctx) rpcQuery(r *lib.RNG, g *lib.ChainGen, version string, chain rpcChain,
-	h9 *rpcv9.Handler, h10 *rpcv10.Handler, out chan<- batch,
+	hs *rpcHandlers, out chan<- batch,
 ) {
 	newState, seed := chain.DstNew, chain.Seed
 	res := c.res
@@ -454,12 +513,12 @@ func (c *ctx) rpcQuery(r *lib.RNG, g *lib.ChainGen, version string, chain rpcCha
 		} else {
 			bad = append(bad, rpcStorageKeysJSON{Contract: "0x1", Keys: nil})
 		}
-		if rawBad, _, e1, e2 := callStorageProof(version, h9, h10, ref, classes, contracts, bad); e1 == nil && e2 == nil && rawBad != nil {
+		if rawBad, _, e1, e2 := callStorageProof(version, hs, ref, classes, contracts, bad); e1 == nil && e2 == nil && rawBad != nil {
 			res.Violate(lib.Violation{Sig: tag + ":malformed-storage-keys-answered", What: "a contracts_storage_keys entry without contract_address / without storage_keys is answered with a proof instead of InvalidParams", Replay: req})
 		}
 		res.Hit("rpc:malformed-storage-keys")
 	}
-	raw, sets, rpcErr, err := callStorageProof(version, h9, h10, ref, classes, contracts, storage)
+	raw, sets, rpcErr, err := callStorageProof(version, hs, ref, classes, contracts, storage)
 	if !isHead {
 		if err == nil && rpcErr == nil {
 			res.Violate(lib.Violation{Sig: tag + ":proof-served-for-a-block-that-is-not-the-head",
